@@ -226,3 +226,19 @@ class Decider:
     def positive(self, a: Rat):
         """Reachability twin: constraints are satisfiable together with a > 0."""
         return self.check(a.num() > 0, a.den() > 0)
+
+
+def differ_formula(a: Rat, b: Rat):
+    """z3 formula 'a != b' (cross-multiplied, common positive factors cancelled)."""
+    if a.n is None and b.n is None:
+        return z3.BoolVal(False)
+    if a.n is None or b.n is None:
+        return z3.BoolVal(True)  # a strictly positive value never equals zero
+    left = Rat(a.n + b.d, b.n + a.d)
+    return prod(left.n) != prod(left.d)
+
+
+def differ_any(decider: Decider, pairs):
+    """One query for a whole family of value assignments: exists parameters and i with a_i != b_i."""
+    fs = [differ_formula(a, b) for a, b in pairs]
+    return decider.check(z3.Or(fs) if len(fs) != 1 else fs[0])
